@@ -484,6 +484,9 @@ func c17Run(t *testing.T, c *evid.Collector) {
 			}
 		}
 		for _, ae := range autoEnvs {
+			if src == "exhaustive" && len(name) > 5 {
+				break // the six-symbol strings of the thorough tier: the plain servers only
+			}
 			ds, verdict, acc := ae.createVia(name, &s3x.Req{Method: "PUT", Path: "/" + name}, " (server with the auto-bucket option)")
 			if firstAcc != nil && *firstAcc != acc {
 				ds = append(ds, disc{Kind: "options-differ", Detail: fmt.Sprintf("name=%q on %s: accepted=%v, with the auto-bucket option accepted=%v", name, ae.st.Kind, *firstAcc, acc)})
